@@ -25,11 +25,33 @@ def bit(v, a, i):
     return (a >> (w - 1 - i)) & 1 if i < w else 0
 
 
-class Universe:
-    """a small nested universe of prefixes so that covering chains and equal (prefix,len) keys are frequent"""
+class Case:
+    """one history: op lines + per-line tags used by the oracles; `cls` names the generator class (coverage gates),
+    `expect` what the class is built to reach (measured on the implementation's answers, see pfxcheck.measure)"""
 
-    def __init__(self, r, deep=False):
+    def __init__(self, hid, cls="random"):
+        self.hid = hid
+        self.cls = cls
+        self.ops = []
+        self.tags = []
+        self.expect = {}
+
+    def emit(self, line, tag):
+        self.ops.append(line)
+        self.tags.append(tag)
+
+
+class Universe:
+    """a small nested universe of prefixes so that covering chains and equal (prefix,len) keys are frequent.
+    noncanon: records carry host bits (bits beyond the prefix length) taken from a few patterns, so that records that
+    differ only there are frequent - the trie treats them as distinct keys"""
+
+    def __init__(self, r, deep=False, noncanon=False):
         self.r = r
+        self.noncanon = noncanon
+        self.hostpats = {}
+        if noncanon:
+            self.hostpats = {v: [0, 1, (1 << W(v)) - 1, r.getrandbits(W(v)), r.getrandbits(W(v)), 1 << r.randrange(W(v))] for v in (4, 6)}
         self.prefixes = []   # (v, addr, len)
         for v in (4, 6):
             w = W(v)
@@ -55,6 +77,8 @@ class Universe:
         v, a, ln = r.choice(self.prefixes)
         w = W(v)
         ml = r.choice([ln, ln, min(w, ln + 1), w, r.randrange(ln, w + 1), max(0, ln - 1)])
+        if self.noncanon and ln < w and r.random() < 0.7:
+            a |= r.choice(self.hostpats[v]) & ((1 << (w - ln)) - 1)
         return (v, a, ln, ml, r.choice(ASNS), r.choice(SRCS))
 
     def query(self, r, stored):
@@ -96,8 +120,20 @@ def rec_str(rec):
     return "%d:%s/%d-%d:%d:%d" % (v, hexaddr(v, a), ln, ml, asn, src)
 
 
+_PARSED = {}
+
+
 def parse_rec_str(s):
     # 4:0a000000/8-24:65001:1
+    t = _PARSED.get(s)
+    if t is None:
+        if len(_PARSED) > 400000:
+            _PARSED.clear()
+        t = _PARSED[s] = _parse_rec_str(s)
+    return t
+
+
+def _parse_rec_str(s):
     v, rest = s.split(":", 1)
     pfx, asn, src = rest.rsplit(":", 2)
     addr, lens = pfx.split("/")
@@ -139,11 +175,12 @@ def check_validation(records, v, q, n, asn, state, reasons):
     if exp == "INVALID" and sorted(reasons) != sorted(cov):
         return "INVALID reasons are not exactly the covering records"
     if exp == "VALID":
-        if any(r not in cov for r in reasons):
+        covs, matchs = set(cov), set(match)
+        if any(r not in covs for r in reasons):
             return "VALID reasons contain a non-covering record"
         if len(set(reasons)) != len(reasons):
             return "VALID reasons contain a record twice"
-        if not any(r in match for r in reasons):
+        if not any(r in matchs for r in reasons):
             return "VALID reasons contain no matching record"
     return None
 
@@ -169,3 +206,341 @@ class SetSpec:
     def srcrm(self, src):
         self.s = set(r for r in self.s if r[5] != src)
         return 0
+
+
+# ------------------------------------------------------------------------------------------
+# generator classes that reach a particular region deterministically (each has a coverage gate in pfxcheck)
+# ------------------------------------------------------------------------------------------
+
+def observe(c, t=0):
+    c.emit("dump %d" % t, ("dump",))
+    c.emit("shape %d" % t, ("shape",))
+    c.emit("log %d" % t, ("log",))
+
+
+def emit_val(c, q, tag="val"):
+    c.emit("val 0 %d %s %d %d" % (q[0], hexaddr(q[0], q[1]), q[2], q[3]), (tag, q))
+
+
+def emit_reload(c, r, s, new_recs):
+    """what rtr_sync does for a full reload of source s: shadow copy of the other sources' records, fill, swap, notify_diff,
+    discard the old table"""
+    c.emit("newnocb 1", ("new1",))
+    c.emit("copyx 0 1 %d" % s, ("copyx", s))
+    for rec in new_recs:
+        rec = rec[:5] + (s,)
+        c.emit("add 1 " + fmt_rec_args(rec), ("add1", rec))
+    c.emit("swap 0 1", ("swap",))
+    c.emit("diff 0 1 %d" % s, ("diff", s))
+    c.emit("free 1", ("free1",))
+
+
+def literal_sizes(lo, hi):
+    """integer literals of the tree under test within [lo, hi]: a count the code treats specially (a buffer size, the
+    range of a narrow counter spelled as a constant) is a literal of the source"""
+    import vlib
+    return [x for x in vlib.source_literals()["ints"] if lo <= x <= hi]
+
+
+def fat_sizes(tier):
+    """numbers of records on ONE prefix/length (one trie node).  255/256/257 and 65535/65536/65537: the ranges of 8 and 16
+    bit counters; L-1, L, L+1 for every literal L of the sources in 64..70000.  returns [(size, light)]: `light` histories
+    (fewer observations) for the big ones; the quick tier takes only L+1 above 1100 and nothing above 8000."""
+    base = set([255, 256, 257, 300, 513])
+    big = set()
+    for L in literal_sizes(64, 70000) + [65536]:
+        for n in (L - 1, L, L + 1):
+            if n <= 1100:
+                base.add(n)
+            elif tier == "thorough" or (n == L + 1 and n <= 8000):
+                big.add(n)
+    return [(n, False) for n in sorted(base)] + [(n, True) for n in sorted(big)]
+
+
+def gen_fat(r, hid, N, light=False):
+    """one trie node holding N records (one prefix/length authorised for N origin AS / max-length / source triples), the
+    node being an inner node of the trie; validation queries whose only matching record sits at a chosen array index
+    (first, last, around N mod 256, random); removals by record at both ends and in the middle; removal of a source that
+    owns exactly ONE of the N records (everything else must survive); removal of the majority source (node vanishes,
+    a child's payload is pulled up)"""
+    c = Case(hid, "fat")
+    c.expect = {"node": N}
+    v = r.choice((4, 6))
+    w = W(v)
+    ln = r.choice([0, 1, 8, 16, 24, w - 1, w])
+    base = r.getrandbits(w)
+    a = trunc(v, base, ln)
+    minor, major, third = r.sample(SRCS, 3)
+    pm = r.choice([0, N - 1, N // 2, r.randrange(N)])
+    elems = []
+    for i in range(N):
+        src = minor if i == pm else (third if r.random() < 0.1 else major)
+        ml = r.choice([ln, w, w, r.randrange(ln, w + 1)])
+        elems.append((v, a, ln, ml, 100000 + i, src))
+    neigh = []
+    if ln > 0:
+        pl = r.randrange(0, ln)
+        neigh.append((v, trunc(v, base, pl), pl, r.randrange(pl, w + 1), r.choice(ASNS), r.choice(SRCS)))
+    if ln < w:
+        for side in (0, 1):
+            cl = r.randrange(ln + 1, w + 1)
+            ca = trunc(v, (a | (side << (w - ln - 1)) | (r.getrandbits(w) & ((1 << (w - ln - 1)) - 1))), cl)
+            neigh.append((v, ca, cl, r.randrange(cl, w + 1), r.choice(ASNS), r.choice([minor, major, third])))
+    r.shuffle(neigh)
+    nb = r.randrange(len(neigh) + 1)
+    c.emit("new 0", ("new",))
+    for rec in neigh[:nb]:
+        c.emit("add 0 " + fmt_rec_args(rec), ("add", rec))
+    for rec in elems:
+        c.emit("add 0 " + fmt_rec_args(rec), ("add", rec))
+    for rec in neigh[nb:]:
+        c.emit("add 0 " + fmt_rec_args(rec), ("add", rec))
+    arr = list(elems)          # the node's array, in the implementation's order (append at the end, removal shifts down)
+
+    def val_for(rec):
+        ml = rec[3]
+        n = r.randrange(ln, ml + 1)
+        q = a | (r.getrandbits(w) & ((1 << (w - ln)) - 1) if ln < w else 0)
+        emit_val(c, (v, trunc(v, q, n), n, rec[4]))
+
+    def late(k=1):
+        return [arr[-1 - j] for j in range(min(k, len(arr)))]
+    idx = set([0, N - 1])
+    if not light:
+        idx |= set(i for i in (N - 2, N // 2, N % 256, N % 256 - 1, N % 65536, r.randrange(N), r.randrange(N), r.randrange(N)) if 0 <= i < N)
+    for i in sorted(idx):
+        val_for(arr[i])
+    q = a | (r.getrandbits(w) & ((1 << (w - ln)) - 1) if ln < w else 0)
+    emit_val(c, (v, q, w, 4200000001))           # no record matches: every covering record is a reason
+    if not light:
+        emit_val(c, (v, q, w, 0))
+    observe(c)
+    for where in (("last", "first") if light else ("last", "first", "mid")):
+        cand = [j for j, x in enumerate(arr) if x[5] != minor]          # the minority record stays for the removal by source
+        if len(cand) < 3:
+            break
+        j = cand[-1] if where == "last" else cand[0] if where == "first" else r.choice(cand[1:-1])
+        rec = arr.pop(j)
+        c.emit("rm 0 " + fmt_rec_args(rec), ("rm", rec))
+        val_for(late()[0])
+    if not light:
+        observe(c)
+    c.emit("srcrm 0 %d" % minor, ("srcrm", minor))
+    arr = [x for x in arr if x[5] != minor]
+    observe(c)
+    for rec in late(1 if light else 3):
+        val_for(rec)
+    if not light:
+        back = (v, a, ln, w, 100000 + N + 1, minor)
+        c.emit("add 0 " + fmt_rec_args(back), ("add", back))
+        arr.append(back)
+        c.emit("srcrm 0 %d" % third, ("srcrm", third))
+        arr = [x for x in arr if x[5] != third]
+        observe(c)
+        for rec in late(2):
+            val_for(rec)
+        c.emit("srcrm 0 %d" % major, ("srcrm", major))
+        arr = [x for x in arr if x[5] != major]
+        observe(c)
+        for rec in late(1):
+            val_for(rec)
+    c.emit("free 0", ("free",))
+    c.emit("log 0", ("log",))
+    c.emit("dump 0", ("dump",))
+    return c
+
+
+SPINE_PATTERNS = ("left", "right", "alt", "rand")
+
+
+def spine_base(r, v, pattern):
+    w = W(v)
+    if pattern == "left":
+        return 0
+    if pattern == "right":
+        return (1 << w) - 1
+    if pattern == "alt":
+        x = int("aa" * (w // 8), 16)
+        return x if r.random() < 0.5 else x >> 1
+    return r.getrandbits(w)
+
+
+def gen_spine(r, hid, v, pattern, order):
+    """the deepest trie canonical prefixes can build: base/0, base/1, ..., base/w (33 resp. 129 nodes on one path), inserted
+    in ascending, descending or random order; enumeration, validation at the leaf, a full reload of one source (shadow
+    copy, swap, diff), removals at the root, in the middle and at the leaf, removal by source"""
+    c = Case(hid, "spine")
+    w = W(v)
+    c.expect = {"depth%d" % v: w, "pattern": pattern}
+    base = spine_base(r, v, pattern)
+    recs = []
+    for ln in range(w + 1):
+        recs.append((v, trunc(v, base, ln), ln, r.choice([ln, w, r.randrange(ln, w + 1)]), r.choice(ASNS[1:]), r.choice(SRCS)))
+    s = r.choice(SRCS)
+    if r.random() < 0.6:                # the leaf (and its parent) belong to another source than the one reloaded
+        for ln in (w, w - 1):
+            recs[ln] = recs[ln][:5] + (r.choice([x for x in SRCS if x != s]),)
+    seq = list(recs)
+    if order == "desc":
+        seq.reverse()
+    elif order == "shuffle":
+        r.shuffle(seq)
+    c.emit("new 0", ("new",))
+    for rec in seq:
+        c.emit("add 0 " + fmt_rec_args(rec), ("add", rec))
+    extra = [(v, trunc(v, base, ln), ln, w, r.choice(ASNS), r.choice(SRCS)) for ln in r.sample(range(w + 1), 3)]
+    for rec in extra:                   # a second record on some nodes of the path
+        c.emit("add 0 " + fmt_rec_args(rec), ("add", rec))
+    observe(c)
+    leaf = recs[w]
+    emit_val(c, (v, base, w, leaf[4]))
+    emit_val(c, (v, base, w, 4200000001))
+    emit_val(c, (v, base ^ 1, w, leaf[4]))
+    mid = r.randrange(1, w)
+    emit_val(c, (v, trunc(v, base, mid), mid, recs[mid][4]))
+    olds = [x for x in recs + extra if x[5] == s]
+    keep = [x for x in olds if r.random() < 0.6]
+    new = [(v, trunc(v, base, w) ^ 1, w, w, 65001, s), (v, trunc(v, base, w), w, w, 65099, s)]
+    if w > 1:
+        new.append((v, trunc(v, base, w - 1), w - 1, w, 65098, s))
+    fill = keep + new
+    r.shuffle(fill)
+    emit_reload(c, r, s, fill)
+    observe(c)
+    emit_val(c, (v, base, w, leaf[4]))
+    emit_val(c, (v, base, w, 4200000001))
+    for rec in (recs[0], recs[mid], recs[w]):
+        c.emit("rm 0 " + fmt_rec_args(rec), ("rm", rec))
+    observe(c)
+    s2 = r.choice(SRCS)
+    c.emit("srcrm 0 %d" % s2, ("srcrm", s2))
+    observe(c)
+    emit_val(c, (v, base, w, leaf[4]))
+    c.emit("free 0", ("free",))
+    c.emit("log 0", ("log",))
+    c.emit("dump 0", ("dump",))
+    return c
+
+
+def noncanon_spines(tier):
+    """numbers of nodes on one root path for the non-canonical class: the maximum (2w+1: w records `path address with bit d
+    flipped`/0 and path/0 .. path/w), the canonical maximum +1, +2, and L-1 .. L+2 for every literal L of the sources
+    in 34..2w+1 (a fixed stack / recursion bound on the depth is spelled in the code)"""
+    out = {}
+    for v in (4, 6):
+        w = W(v)
+        top = 2 * w + 1
+        ms = set([top, top - 1, w + 2, w + 3])
+        for L in literal_sizes(w + 2, top):
+            for m in (L - 1, L, L + 1, L + 2):
+                if w + 2 <= m <= top:
+                    ms.add(m)
+        out[v] = sorted(ms)
+    return out
+
+
+def gen_noncanon_spine(r, hid, v, M, pattern):
+    """records whose host bits are set are distinct keys of the trie and are accepted by pfx_table_add (a cache can send
+    them: only the lengths of a Prefix PDU are checked).  With them one root path holds up to 2w+1 nodes: `A with bit d
+    flipped`/0 for d = 0..h-1 (inserted in this order: record d agrees with A on d leading bits and sits at depth d), then
+    M-h records A/l.  Enumeration, shadow copy + swap + diff, removals and removal by source on such a table are judged by
+    the set semantics (C02) and the callback replay (C09); validation answers are compared with the model only."""
+    c = Case(hid, "ncspine")
+    w = W(v)
+    c.expect = {"ncnodes%d" % v: M, "pattern": pattern}
+    A = spine_base(r, v, pattern)
+    lo = max(0, M - (w + 1))
+    h = r.randrange(lo, min(M, w) + 1)
+    if r.random() < 0.5:
+        h = min(M, w)
+    k = M - h
+    recs = []
+    for d in range(h):
+        recs.append((v, A ^ (1 << (w - 1 - d)), 0, r.choice([0, w, r.randrange(0, w + 1)]), r.choice(ASNS), r.choice(SRCS)))
+    tail = []
+    for ln in sorted(r.sample(range(w + 1), k)):
+        tail.append((v, A, ln, r.choice([ln, w]), r.choice(ASNS), r.choice(SRCS)))
+    if r.random() < 0.5:
+        r.shuffle(tail)
+    c.emit("new 0", ("new",))
+    for rec in recs + tail:
+        c.emit("add 0 " + fmt_rec_args(rec), ("add", rec))
+    allrecs = recs + tail
+    observe(c)
+    for _ in range(3):
+        x = r.choice(allrecs)
+        emit_val(c, (v, x[1], r.randrange(x[2], w + 1), x[4]), tag="valx")
+    for rec in r.sample(allrecs, min(4, len(allrecs))):       # every stored record is a duplicate for add
+        c.emit("add 0 " + fmt_rec_args(rec), ("add", rec))
+    s = r.choice(SRCS)
+    olds = [x for x in allrecs if x[5] == s]
+    fill = [x for x in olds if r.random() < 0.6] + [(v, A ^ 1, w, w, 65001, s), (v, A, w, w, 65099, s)]
+    emit_reload(c, r, s, fill)
+    observe(c)
+    for rec in r.sample(allrecs, min(6, len(allrecs))):
+        c.emit("rm 0 " + fmt_rec_args(rec), ("rm", rec))
+    observe(c)
+    s2 = r.choice(SRCS)
+    c.emit("srcrm 0 %d" % s2, ("srcrm", s2))
+    observe(c)
+    c.emit("free 0", ("free",))
+    c.emit("log 0", ("log",))
+    c.emit("dump 0", ("dump",))
+    return c
+
+
+def gen_allocfail(r, hid, nops):
+    """failing allocator: every operation of a short history is first attempted with the k-th allocation request of that
+    operation failing, k = 1 .. 5 for an add (it makes at most three requests), 1 .. 2 / 1 .. 3 for the others, each attempt followed by the full observation, then
+    executed normally.  The first add into each (empty) address family always comes first."""
+    c = Case(hid, "allocfail")
+    u = Universe(r)
+    c.emit("new 0", ("new",))
+    stored = []
+    first = []
+    for v in r.sample((4, 6), 2):
+        cand = [p for p in u.prefixes if p[0] == v]
+        p = r.choice(cand)
+        first.append(("add", (p[0], p[1], p[2], r.randrange(p[2], W(v) + 1), r.choice(ASNS), r.choice(SRCS))))
+    plan = list(first)
+    for _ in range(nops):
+        x = r.random()
+        if x < 0.5 or not stored and not plan:
+            plan.append(("add", u.rec(r)))
+        elif x < 0.6:
+            plan.append(("add", None))          # a second element on an existing node / a duplicate
+        elif x < 0.8:
+            plan.append(("rm", None))
+        elif x < 0.9:
+            plan.append(("srcrm", r.choice(SRCS)))
+        else:
+            plan.append(("val", None))
+    for kind, arg in plan:
+        if kind == "add":
+            if arg is None:
+                base = r.choice(stored) if stored else u.rec(r)
+                arg = base if r.random() < 0.3 else base[:3] + (r.choice([base[3], W(base[0])]), r.choice(ASNS), r.choice(SRCS))
+            line, tag, K = "add 0 " + fmt_rec_args(arg), ("add", arg), 5
+            stored.append(arg)
+        elif kind == "rm":
+            arg = r.choice(stored) if stored and r.random() < 0.85 else u.rec(r)
+            line, tag, K = "rm 0 " + fmt_rec_args(arg), ("rm", arg), 2
+        elif kind == "srcrm":
+            line, tag, K = "srcrm 0 %d" % arg, ("srcrm", arg), 2
+        else:
+            q = u.query(r, stored)
+            line, tag, K = "val 0 %d %s %d %d" % (q[0], hexaddr(q[0], q[1]), q[2], q[3]), ("val", q), 3
+        for k in range(1, K + 1):
+            c.emit("fail %d" % k, ("fail", k))
+            c.emit(line, tag)
+            c.emit("failinfo", ("failinfo",))
+            observe(c)
+        c.emit(line, tag)
+        observe(c)
+    for _ in range(4):
+        q = u.query(r, stored)
+        emit_val(c, q)
+    c.emit("free 0", ("free",))
+    c.emit("log 0", ("log",))
+    c.emit("dump 0", ("dump",))
+    return c
